@@ -605,6 +605,8 @@ impl PtraceDumper {
         // Zero memory that is below the current stack pointer.
         let offset =
             (sp_offset + std::mem::size_of::<usize>() - 1) & !(std::mem::size_of::<usize>() - 1);
+        // The copy can be shorter than expected if the target's memory could only partially be read
+        let offset = std::cmp::min(offset, stack_copy.len());
         for x in &mut stack_copy[0..offset] {
             *x = 0;
         }
